@@ -196,6 +196,9 @@ func (tv *tview) object(obj *resolve.Object, t *gast.Type, sets []gast.Selection
 	}
 	def := tv.m.s.Types[t.NamedType]
 	rt, ok := tv.m.runtimeType(def, v)
+	if !ok && def.Kind == gast.Object {
+		rt, ok = def.Name, true // contradicting __typename at a concrete position: handled below
+	}
 	if !ok {
 		return
 	}
